@@ -146,6 +146,14 @@ impl Prop for SimTl {
                     interesting = true;
                 }
                 out.add("events_checked", run.events.len() as u64);
+                // slow-world coverage: blocking/padding/timer events that happened more than 2^32 microseconds
+                // (about 71.6 minutes) after the first trace event
+                let far = run
+                    .events
+                    .iter()
+                    .filter(|e| e.t >= (1u64 << 32) * 1000 && !matches!(e.event, maybenot::event::TriggerEvent::NormalSent | maybenot::event::TriggerEvent::NormalRecv | maybenot::event::TriggerEvent::TunnelSent | maybenot::event::TriggerEvent::TunnelRecv))
+                    .count();
+                out.add("machine_driven_events_later_than_2^32_us_after_the_start", far as u64);
                 out.add("actions_logged", run.actions.len() as u64);
                 let mine: Vec<_> = viols.iter().filter(|v| v.prop == self.prop).collect();
                 let mut seen = std::collections::BTreeSet::new();
